@@ -56,7 +56,7 @@ CHECKS = {
     "C06": dict(
         technique="Lean 4 proof (uniqueness of assigned names, character set, head and tail of every export name) + exhaustive correspondence of sanitising and de-duplication + end-to-end CDDA exports with hostile titles",
         text=(
-            "Machine-checked so far: C06_export_head — every export name is non-empty and starts with a word character (so no component is empty, '.', '..', or starts with a separator). C06_unique (dedupe_nodup: whatever the candidate names — duplicates, names equal after sanitising, names colliding with a generated `(n)` — the assigned names are pairwise distinct, one per sibling; invariant proofs over groupBy / nextFree / assignGroup / the group loop in Lemmas/Dedupe), C06_charset (every character of an export name is a word character, blank, '-', '.' or '#'), C06_dir_tail (a directory component never ends in '.' or '-'). NOT proved: that the digits of `(n)` are digits (Nat.repr), confinement on disk (oracle). "
+            "Machine-checked so far: C06_export_head — every export name is non-empty and starts with a word character (so no component is empty, '.', '..', or starts with a separator). C06_unique (dedupe_nodup: whatever the candidate names — duplicates, names equal after sanitising, names colliding with a generated `(n)` — the assigned names are pairwise distinct, one per sibling; invariant proofs over groupBy / nextFree / assignGroup / the group loop in Lemmas/Dedupe), C06_charset (every character of an export name is a word character, blank, '-', '.' or '#'), C06_dir_tail (a directory component never ends in '.' or '-'). C06_clean_names_kept (Props/C06N) — a list of pairwise distinct clean names (word characters joined by single inner blanks, '-' or '#'; CleanName) is left exactly as it is by the whole naming pipeline: makeSafeName and makeExportName are the identity on clean names (makeSafeName_clean / makeExportName_clean, through safeReplace_ok / subRuns_ok / strip_clean) and the de-duplication is the identity on a duplicate-free list (dedupe_nodup_id) — this is the premise under which the end-to-end oracles of C01/C02/C10 predict '<volume>/<name>.wav'. NOT proved: that the digits of `(n)` are digits (Nat.repr), confinement on disk (oracle). "
             "Tie: make_safe_name/make_export_name on every string of length <= 3 (thorough 4) over an 18-character alphabet with / \\ . : quotes ( ) # and a control character; sanitize_names_general on every sibling list of length <= 3 (thorough 4) from the near-collision pool, both passes; "
             "CDDA exports with '../x', separators, duplicate and blank titles checked on disk (inside destination, #files = #Exported lines, component rules). Found and repaired: D3, D4, D5."
         ),
